@@ -754,8 +754,11 @@ class H2Connection:
             "Send headers on stream ID %d", stream_id
         )
 
-        # Check we can open the stream.
-        if stream_id not in self.streams:
+        # Check we can open the stream. Sending HEADERS on a stream we have
+        # reserved with PUSH_PROMISE opens it as well: reserved streams do not
+        # count towards the limit, open ones do (RFC 7540 Section 5.1.2).
+        if (stream_id not in self.streams or
+                self.streams[stream_id].reserved):
             max_open_streams = self.remote_settings.max_concurrent_streams
             if (self.open_outbound_streams + 1) > max_open_streams:
                 raise TooManyStreamsError(
@@ -1559,7 +1562,8 @@ class H2Connection:
         """
         # If necessary, check we can open the stream. Also validate that the
         # stream ID is valid.
-        if frame.stream_id not in self.streams:
+        if (frame.stream_id not in self.streams or
+                self.streams[frame.stream_id].reserved):
             max_open_streams = self.local_settings.max_concurrent_streams
             if (self.open_inbound_streams + 1) > max_open_streams:
                 raise TooManyStreamsError(
